@@ -57,6 +57,7 @@ func vBool(s string) *V               { return &V{K: KBool, S: s, T: types.Typ[t
 // ---- engine-global tables ----
 
 type Engine struct {
+	retryOnly func(*Obligation) bool // which undecided obligations get the second-chance pass (nil: all)
 	dyn *dynTargets
 	prog      *ssa.Program
 	repoPkgs  map[string]bool // package paths that belong to the repository
@@ -633,9 +634,11 @@ func (s *State) readAt(fam string, idx []string, t types.Type) *V {
 		v := vInt(s.readLeaf(fam, idx, "Int"), t)
 		s.assumeTypeRange(v)
 		if isRefType(t) && strings.HasPrefix(v.S, "(select ") {
-			// references stored in memory are older than anything allocated later; a component not written since
-			// entry holds only references that existed at entry
-			s.assume("(< " + v.S + " " + s.allocBound(fam) + ")")
+			// a component not written since entry holds only references that existed at entry (reads of later
+			// versions get their bound where the code loads them: fewer facts keep the solvers fast)
+			if b := s.allocBound(fam); b == s.run.entryAlloc && b != "" {
+				s.assume("(< " + v.S + " " + b + ")")
+			}
 		}
 		return v
 	case KBool:
